@@ -8,15 +8,16 @@ set -u
 PATCH=$(readlink -f "$1"); shift
 TIER=${TIER:-quick}
 export GOFLAGS=-mod=mod GOPROXY=off GOSUMDB=off GOTOOLCHAIN=local
+SRC=${VERIF_SRC:-/verif}
 TP=/tmp/tp-$$
 trap 'git -C /repo worktree remove --force "$TP/repo" >/dev/null 2>&1; rm -rf "$TP"; git -C /repo worktree prune' EXIT
 mkdir -p "$TP/root/bin" "$TP/root/evidence"
 git -C /repo worktree add -q --detach "$TP/repo" HEAD || exit 2
 if ! git -C "$TP/repo" apply "$PATCH"; then echo "patch does not apply to /repo HEAD"; exit 2; fi
-cp /verif/known_findings.json "$TP/root/"
-sed "s#=> /repo#=> $TP/repo#" /verif/harness/go.mod > "$TP/h.mod"
-cp /verif/harness/go.sum "$TP/h.sum"
-cd /verif/harness || exit 2
+cp "$SRC/known_findings.json" "$TP/root/"
+sed "s#=> /repo#=> $TP/repo#" "$SRC"/harness/go.mod > "$TP/h.mod"
+cp "$SRC/harness/go.sum" "$TP/h.sum"
+cd "$SRC/harness" || exit 2
 go build -modfile="$TP/h.mod" -tags verif -ldflags=-checklinkname=0 -o "$TP/root/bin/vcheck" ./cmd/vcheck > "$TP/build.log" 2>&1 || { echo "BUILD FAILED"; tail -20 "$TP/build.log"; exit 2; }
 for id in "$@"; do
   case "$id" in C12|C14|C17|C20) go build -modfile="$TP/h.mod" -race -tags verif -ldflags=-checklinkname=0 -o "$TP/root/bin/vcheck-race" ./cmd/vcheck > "$TP/build.log" 2>&1 || { echo "BUILD FAILED (race)"; exit 2; } ;; esac
